@@ -21,6 +21,7 @@ import (
 var c17Opt = evGenOpt{
 	Tree:      ck.GenOpt{MinBlocks: 8, MaxBlocks: 30, Epochs: []uint64{3, 4}, Validators: []int{1, 2, 3, 4, 5, 7, 10}, Txs: true, Sup: true, BadSup: true},
 	Votes:     true,
+	Early:     true,
 	BadVotes:  true,
 	Restarts:  true,
 	MaxEvents: 16,
@@ -131,6 +132,9 @@ func c17Exec(c evCase, x *pbt.Ctx) error {
 	}
 	if restartBetween {
 		x.Class("restart-between-votes")
+	}
+	if h.early > 0 {
+		x.Class("early-votes")
 	}
 	x.NonTrivial = forged || restartBetween
 	var he *hangErr
